@@ -21,6 +21,9 @@ type Val struct {
 	fp *fieldPtr
 	// engine-level closure (MakeClosure result) for inlining
 	clo *closureInfo
+	// in a specification environment: ts[0] is the address of a local variable that lives in a heap cell (it is
+	// captured by a function literal); the name denotes the cell's content, of this type, in the state of evaluation
+	cellOf types.Type
 }
 
 type fieldPtr struct {
